@@ -146,46 +146,39 @@ theorem interrogative_fronting_partial_phrase :
   rw [hmain, hi]
   exact Fronted_map _ _ _ _ _ (linPh_fronted _ i _ hv hf)
 
-/-- the dependency notation inverts unless the clause is a passive without object, or a prepositional question
-    (`woi/wai/whe/whn`) is asked of a clause that has a prepositional dependent (by-phrase included): then it raises -/
+/-- the dependency notation inverts unless the clause is a passive without object (since `preposition_list` is shared
+    with the dependency notation, prepositional questions no longer raise) -/
 theorem interrogative_fronting_partial_dep :
     ∀ (sp : Spec) (ty : Typ) (i : ClauseEn.Int), ty.int = some i → i.fronting = true →
-      ¬ (ty.pas = true ∧ sp.obj = none) → (i.isPPq = true → sp.pps = [] ∧ ty.pas = false) →
+      ¬ (ty.pas = true ∧ sp.obj = none) →
       ∃ out, realize .dep sp ty = .ok out ∧
         Fronted i ((clauseWords sp ty).map (Tok.resolve out.agr)) (subjTok sp ty.pas) out.main := by
-  intro sp ty i hi hf hnd hpp
+  intro sp ty i hi hf hnd
   have hq : ty.questioned = true := by rw [questioned_eq ty i hi]; exact hf
   have hc := dep_front_cond sp.verb sp.t ty hq
   change 2 ≤ (clauseWords sp ty).length ∨ headAlone (clauseWords sp ty) = true at hc
-  have key : ∀ sj obj ql, (i.isPPq = true → ql = []) →
-      ∃ L, linDepPlain sj obj ql (some i) (clauseWords sp ty) = some L := by
-    intro sj obj ql hql
-    cases i <;> simp [Int.fronting] at hf <;> simp [linDepPlain, Int.isPPq] at hql ⊢ <;> simp [hql]
-  have hppArgs : sp.pps = [] → ppArgs sp = [] := by intro h; simp [ppArgs, h]
+  have key : ∀ sj obj ql, ∃ L, linDepPlain sj obj ql (some i) (clauseWords sp ty) = some L := by
+    intro sj obj ql
+    cases i <;> simp [linDepPlain]
   -- the linearisation exists and is the plain one
   have hplain : ∃ sj obj ql L, sj = subjTok sp ty.pas ∧ linDep sp ty (clauseWords sp ty) = some L ∧
       linDepPlain sj obj ql (some i) (clauseWords sp ty) = some L := by
     unfold linDep subjTok midPh
     by_cases hp : ty.pas = true
-    · have hpq : i.isPPq = false := by
-        cases hq' : i.isPPq
-        · rfl
-        · exact absurd (hpp hq').2 (by simp [hp])
-      simp only [hp, if_true]
+    · simp only [hp, if_true]
       cases ho : sp.obj with
       | none => exact absurd ⟨hp, ho⟩ hnd
       | some o =>
         cases o with
         | np a =>
-          obtain ⟨L, hL⟩ := key (.np a) none (ppArgs sp ++ [byArg sp]) (by simp [hpq])
+          obtain ⟨L, hL⟩ := key (.np a) none (ppArgs sp ++ [byArg sp])
           exact ⟨_, _, _, L, rfl, by rw [hi]; exact hL, hL⟩
         | pro a =>
-          obtain ⟨L, hL⟩ := key (.proNom a) none (ppArgs sp ++ [byArg sp]) (by simp [hpq])
+          obtain ⟨L, hL⟩ := key (.proNom a) none (ppArgs sp ++ [byArg sp])
           exact ⟨_, _, _, L, rfl, by rw [hi]; exact hL, hL⟩
     · have hp' : ty.pas = false := by simpa using hp
       simp only [hp', Bool.false_eq_true, if_false]
       obtain ⟨L, hL⟩ := key (argTokOfSubj sp.subj) (sp.obj.map argTokOfObj) (ppArgs sp)
-        (fun h => hppArgs (hpp h).1)
       exact ⟨_, _, _, L, rfl, by rw [hi]; exact hL, hL⟩
   obtain ⟨sj, obj, ql, L, hsj, hlin, hL⟩ := hplain
   have := realize_lin .dep sp ty
@@ -293,22 +286,16 @@ def declarative (ty : Typ) : Typ := { ty with int := none }
 
 /-- **C04.f** the questioned constituent is dropped: compared with the same clause without `int`, a subject question
     loses its first argument (the subject), a direct-object question loses the direct object (the promoted subject in a
-    passive), a prepositional question loses its first prepositional complement when the preposition fits the question
-    (`preposition_list`; the by-phrase comes first in a passive) and nothing otherwise.  `argsOf` lists the noun phrases
-    and pronouns of a token list in order. -/
+    passive), a prepositional question loses the first prepositional complement whose preposition fits the question
+    (`preposition_list`) and nothing when none fits.  `argsOf` lists the noun phrases and pronouns of a token list in
+    order, `ppsOf` its prepositional complements. -/
 def questioned_constituent_dropped : Prop :=
   ∀ (nt : Notation) (sp : Spec) (ty : Typ) (out out0 : Out) (i : ClauseEn.Int), ty.int = some i →
     realize nt sp ty = .ok out → realize nt sp (declarative ty) = .ok out0 →
     ((i = .wos ∨ i = .was) → argsOf out.main = (argsOf out0.main).drop 1) ∧
     ((i = .wod ∨ i = .wad) → sp.obj.isSome = true →
         argsOf out.main = removeAt (argsOf out0.main) (if ty.pas then 0 else 1)) ∧
-    (i.isPPq = true →
-        argsOf out.main =
-          match (midPh sp ty.pas).pl with
-          | [] => argsOf out0.main
-          | (p, _) :: _ =>
-            if prepQualifies i p then removeAt (argsOf out0.main) (1 + (midPh sp ty.pas).obj.toList.length)
-            else argsOf out0.main)
+    (i.isPPq = true → ppsOf out.main = (questionPPDep i (ppsOf out0.main)).2)
 
 /-- `wod` on a passive keeps the promoted object: "Who is the mouse eaten by the cat?" -/
 theorem questioned_constituent_dropped_refuted : ¬ questioned_constituent_dropped := by
@@ -318,95 +305,104 @@ theorem questioned_constituent_dropped_refuted : ¬ questioned_constituent_dropp
   revert this
   decide
 
+/-- a second way the clause fails, in the constituent notation only: `Phrase.processInt` looks at the FIRST prepositional
+    phrase only — "Where does the cat eat with the spoon in the house?" keeps the place -/
+example : ¬ (∀ (sp : Spec) (ty : Typ) (out out0 : Out) (i : ClauseEn.Int), ty.int = some i →
+    realize .phrase sp ty = .ok out → realize .phrase sp (declarative ty) = .ok out0 →
+    i.isPPq = true → ppsOf out.main = (questionPPDep i (ppsOf out0.main)).2) := by
+  intro h
+  have := h ⟨.np ⟨1, .s, .n⟩, .other, .p, none, [(s "with", ⟨2, .s, .n⟩), (s "in", ⟨3, .s, .n⟩)]⟩ { int := some .whe }
+    _ _ .whe rfl rfl rfl rfl
+  revert this
+  decide
+
 theorem args_phrase (sp : Spec) (ty : Typ) (out : Out) (h : realize .phrase sp ty = .ok out) :
-    argsOf out.main = argsOf (linPh (midPh sp ty.pas) ty.int (clauseWords sp ty)) := by
+    argsOf out.main = argsOf (linPh (midPh sp ty.pas) ty.int (clauseWords sp ty)) ∧
+    ppsOf out.main = ppsOf (linPh (midPh sp ty.pas) ty.int (clauseWords sp ty)) := by
   obtain ⟨L, hL, hmain⟩ := ok_lin .phrase sp ty out h
-  rw [hmain, argsOf_map_resolve]
+  rw [hmain, argsOf_map_resolve, ppsOf_map_resolve]
   simp only [lin] at hL
   split at hL
   · cases hL
-  · injection hL with hL; rw [hL]
+  · injection hL with hL; rw [hL]; exact ⟨rfl, rfl⟩
 
-/-- constituent notation: everything but the direct-object question of a passive -/
+/-- constituent notation: everything but the direct-object question of a passive, and prepositional questions whose
+    first prepositional phrase does not fit while a later one does -/
 theorem questioned_constituent_dropped_partial_phrase :
     ∀ (sp : Spec) (ty : Typ) (out out0 : Out) (i : ClauseEn.Int), ty.int = some i →
       realize .phrase sp ty = .ok out → realize .phrase sp (declarative ty) = .ok out0 →
       ((i = .wos ∨ i = .was) → argsOf out.main = (argsOf out0.main).drop 1) ∧
       ((i = .wod ∨ i = .wad) → sp.obj.isSome = true → ty.pas = false → argsOf out.main = removeAt (argsOf out0.main) 1) ∧
       (i.isPPq = true →
-          argsOf out.main =
-            match (midPh sp ty.pas).pl with
-            | [] => argsOf out0.main
-            | (p, _) :: _ =>
-              if prepQualifies i p then removeAt (argsOf out0.main) (1 + (midPh sp ty.pas).obj.toList.length)
-              else argsOf out0.main) := by
+        (questionPPPh i (midPh sp ty.pas).pl).2 = (questionPPDep i (midPh sp ty.pas).pl).2 →
+        ppsOf out.main = (questionPPDep i (ppsOf out0.main)).2) := by
   intro sp ty out out0 i hi h h0
-  have a := args_phrase sp ty out h
-  have a0 := args_phrase sp (declarative ty) out0 h0
+  obtain ⟨a, b⟩ := args_phrase sp ty out h
+  obtain ⟨a0, b0⟩ := args_phrase sp (declarative ty) out0 h0
   rw [argsOf_linPh _ _ _ (clauseWords_all sp ty)] at a
   rw [argsOf_linPh _ _ _ (clauseWords_all sp (declarative ty))] at a0
+  rw [ppsOf_linPh _ _ _ (clauseWords_all sp ty)] at b
+  rw [ppsOf_linPh _ _ _ (clauseWords_all sp (declarative ty))] at b0
   have hp : (declarative ty).pas = ty.pas := rfl
   have hi0 : (declarative ty).int = none := rfl
-  rw [hp, hi0] at a0
-  simp only at a0
-  rw [hi] at a
-  rw [a, a0]
+  rw [hp, hi0] at a0 b0
+  simp only [ppsAfter] at a0 b0
+  rw [hi] at a b
+  rw [a, a0, b, b0]
   refine ⟨?_, ?_, ?_⟩
   · rintro (rfl | rfl) <;> simp [fullArgs]
   · rintro (rfl | rfl) ho hpas <;>
     · obtain ⟨o, ho'⟩ := Option.isSome_iff_exists.mp ho
       simp [fullArgs, midPh, hpas, ho', removeAt]
-  · intro hq
-    generalize midPh sp ty.pas = m
-    obtain ⟨sj, obj, pl, _, _, _⟩ := m
-    cases pl with
-    | nil => cases i <;> simp [Int.isPPq] at hq <;> simp [fullArgs, questionPPPh]
-    | cons pa r =>
-      obtain ⟨p, x⟩ := pa
-      by_cases hqq : prepQualifies i p = true
-      · cases i <;> simp [Int.isPPq] at hq <;> cases obj <;> simp [fullArgs, questionPPPh, hqq, removeAt]
-      · cases i <;> simp [Int.isPPq] at hq <;> cases obj <;> simp [fullArgs, questionPPPh, hqq]
+  · intro hq heq
+    cases i <;> simp [Int.isPPq] at hq <;> simpa [ppsAfter] using heq
 
 def depArgs (sp : Spec) (ty : Typ) : List ArgTok :=
   if ty.pas then
     match sp.obj with
     | some (.np a) => argsPlain (.np a) none (ppArgs sp ++ [byArg sp]) ty.int
     | some (.pro a) => argsPlain (.proNom a) none (ppArgs sp ++ [byArg sp]) ty.int
-    | none => .it :: ((ppArgs sp ++ [byArg sp]).map (·.2))
+    | none => argsDummy (ppArgs sp) [byArg sp] ty.int
   else argsPlain (argTokOfSubj sp.subj) (sp.obj.map argTokOfObj) (ppArgs sp) ty.int
 
+/-- the prepositional dependents of the dependency clause, in the order of the dependency notation (by-phrase last) -/
+def depPPs (sp : Spec) (pas : Bool) : List (Str × ArgTok) :=
+  if pas then ppArgs sp ++ [byArg sp] else ppArgs sp
+
 theorem args_dep (sp : Spec) (ty : Typ) (out : Out) (h : realize .dep sp ty = .ok out) :
-    argsOf out.main = depArgs sp ty := by
+    argsOf out.main = depArgs sp ty ∧ ppsOf out.main = ppsAfter questionPPDep ty.int (depPPs sp ty.pas) := by
   obtain ⟨L, hL, hmain⟩ := ok_lin .dep sp ty out h
-  rw [hmain, argsOf_map_resolve]
+  rw [hmain, argsOf_map_resolve, ppsOf_map_resolve]
   have hw := clauseWords_all sp ty
   simp only [lin, linDep] at hL
-  unfold depArgs
+  unfold depArgs depPPs
   cases hp : ty.pas
   · simp only [hp, Bool.false_eq_true, if_false] at hL ⊢
-    exact argsOf_linDepPlain _ _ _ _ _ _ hw hL
+    exact ⟨argsOf_linDepPlain _ _ _ _ _ _ hw hL, ppsOf_linDepPlain _ _ _ _ _ _ hw hL⟩
   · simp only [hp, if_true] at hL ⊢
     cases ho : sp.obj with
     | none =>
       simp only [ho] at hL ⊢
-      exact argsOf_linDepDummy _ _ _ _ _ hw hL
+      exact ⟨argsOf_linDepDummy _ _ _ _ _ hw hL, ppsOf_linDepDummy _ _ _ _ _ hw hL⟩
     | some o =>
       cases o with
-      | np a => simp only [ho] at hL ⊢; exact argsOf_linDepPlain _ _ _ _ _ _ hw hL
-      | pro a => simp only [ho] at hL ⊢; exact argsOf_linDepPlain _ _ _ _ _ _ hw hL
+      | np a => simp only [ho] at hL ⊢; exact ⟨argsOf_linDepPlain _ _ _ _ _ _ hw hL, ppsOf_linDepPlain _ _ _ _ _ _ hw hL⟩
+      | pro a => simp only [ho] at hL ⊢; exact ⟨argsOf_linDepPlain _ _ _ _ _ _ hw hL, ppsOf_linDepPlain _ _ _ _ _ _ hw hL⟩
 
 /-- dependency notation: everything but subject questions of an objectless passive and direct-object questions of a
-    passive (prepositional questions of a clause with a prepositional dependent raise: nothing is claimed of them) -/
+    passive; prepositional questions drop the first fitting prepositional dependent, for every clause -/
 theorem questioned_constituent_dropped_partial_dep :
     ∀ (sp : Spec) (ty : Typ) (out out0 : Out) (i : ClauseEn.Int), ty.int = some i →
       realize .dep sp ty = .ok out → realize .dep sp (declarative ty) = .ok out0 →
       ((i = .wos ∨ i = .was) → ¬ (ty.pas = true ∧ sp.obj = none) → argsOf out.main = (argsOf out0.main).drop 1) ∧
       ((i = .wod ∨ i = .wad) → sp.obj.isSome = true → ty.pas = false → argsOf out.main = removeAt (argsOf out0.main) 1) ∧
-      (i.isPPq = true → argsOf out.main = argsOf out0.main) := by
+      (i.isPPq = true → ppsOf out.main = (questionPPDep i (ppsOf out0.main)).2) := by
   intro sp ty out out0 i hi h h0
-  rw [args_dep sp ty out h, args_dep sp (declarative ty) out0 h0]
+  obtain ⟨a, b⟩ := args_dep sp ty out h
+  obtain ⟨a0, b0⟩ := args_dep sp (declarative ty) out0 h0
   have hp : (declarative ty).pas = ty.pas := rfl
   have hi0 : (declarative ty).int = none := rfl
+  rw [a, a0, b, b0]
   unfold depArgs
   rw [hp, hi0, hi]
   refine ⟨?_, ?_, ?_⟩
@@ -420,11 +416,7 @@ theorem questioned_constituent_dropped_partial_dep :
     · obtain ⟨o, ho'⟩ := Option.isSome_iff_exists.mp ho
       simp [hpas, argsPlain, fullArgs, ho', removeAt]
   · intro hq
-    cases hpas : ty.pas
-    · cases i <;> simp [Int.isPPq] at hq <;> simp [argsPlain]
-    · cases ho : sp.obj with
-      | none => simp
-      | some o => cases o <;> cases i <;> simp [Int.isPPq] at hq <;> simp [argsPlain]
+    cases i <;> simp [Int.isPPq] at hq <;> simp [ppsAfter]
 
 /-! ## the passive -/
 
